@@ -1,6 +1,7 @@
 package kdcproxy
 
 import (
+	"encoding/binary"
 	"fmt"
 	krbconfig "github.com/bolkedebruin/gokrb5/v8/config"
 	"github.com/jcmturner/gofork/encoding/asn1"
@@ -210,15 +211,42 @@ func encode(krb5data []byte) (r []byte, err error) {
 }
 
 func awaitReply(conn net.Conn, isUdp bool, reply chan<- []byte) {
-	resp, err := io.ReadAll(conn)
-	if err != nil {
+	if isUdp {
+		// one datagram is one reply. udp will be missing the length prefix so add it
+		buf := make([]byte, 65535)
+		n, err := conn.Read(buf)
+		if err != nil {
+			log.Printf("error reading from kdc due to %s", err)
+			reply <- nil
+			return
+		}
+		resp := make([]byte, 4+n)
+		binary.BigEndian.PutUint32(resp, uint32(n))
+		copy(resp[4:], buf[:n])
+		reply <- resp
+		return
+	}
+
+	// tcp: the reply is a 4 byte length followed by that many bytes; the kdc
+	// is free to keep the connection open afterwards
+	prefix := make([]byte, 4)
+	if _, err := io.ReadFull(conn, prefix); err != nil {
 		log.Printf("error reading from kdc due to %s", err)
 		reply <- nil
 		return
 	}
-	if isUdp {
-		// udp will be missing the length prefix so add it
-		resp = append([]byte{byte(len(resp))}, resp...)
+	length := binary.BigEndian.Uint32(prefix)
+	if length > maxLength {
+		log.Printf("kdc announces a reply of %d bytes, ignored", length)
+		reply <- nil
+		return
+	}
+	resp := make([]byte, 4+length)
+	copy(resp, prefix)
+	if _, err := io.ReadFull(conn, resp[4:]); err != nil {
+		log.Printf("error reading from kdc due to %s", err)
+		reply <- nil
+		return
 	}
 	reply <- resp
 }
